@@ -169,3 +169,26 @@ def far_block_pair(rng: random.Random, joint: bool, max_vox: int = 20):
     if rng.random() < 0.5:
         return np.concatenate([pred, bp]), np.concatenate([ref, br]), p_new, r_new
     return np.concatenate([bp[::-1], pred]), np.concatenate([br[::-1], ref]), p_new, r_new
+
+
+# (i1, a1, i2, b1, p0): one prediction P overlapping two references A and B (a 1-D line
+# [A only a1][A and P i1][P only p0][B and P i2][B only b1]) whose IoU scores differ by less than
+# 4e-4 and agree to three decimals, both >= 1/4 - a near tie that best-first matching must still decide
+NEAR_TIES = [(20, 0, 23, 7, 4), (23, 7, 20, 0, 4), (20, 1, 23, 8, 3), (19, 3, 21, 8, 5), (21, 8, 19, 3, 5), (23, 9, 20, 2, 2)]
+
+
+def near_tie_pair(rng: random.Random):
+    i1, a1, i2, b1, p0 = rng.choice(NEAR_TIES)
+    n = a1 + i1 + p0 + i2 + b1
+    lead, tail = rng.randint(0, 2), rng.randint(0, 2)
+    ref = np.zeros(lead + n + tail, dtype=np.int64)
+    pred = np.zeros_like(ref)
+    ref[lead:lead + a1 + i1] = 1
+    ref[lead + a1 + i1 + p0:lead + n] = 2
+    pred[lead + a1:lead + a1 + i1 + p0 + i2] = 1
+    if rng.random() < 0.5:
+        # as a two-row strip (the second row empty), so that axis permutations apply as well
+        ref, pred = np.stack([ref, np.zeros_like(ref)]), np.stack([pred, np.zeros_like(pred)])
+    if rng.random() < 0.5:
+        pred, ref = ref, pred                 # one reference spanning two predictions
+    return pred, ref
